@@ -44,14 +44,23 @@ PlainName(p, o) == NameEnd(p, o, 0) # -1 /\ NameEnd(p, o, 0) = NulEnd(p, o)
 (* walk n questions from offset o: [st, q, end] with st "ok" | "trunc" (the message *)
 (* ends inside the declared questions) | "odd" (a name is not made of plain labels),  *)
 (* q the sequence of <<name start, name end, type, class>>, end the offset reached   *)
+(* label walk telling "ran off the end of the message" (-1) from "not made of plain labels" (-2: *)
+(* a compression pointer, a label type, a name longer than 255)                                  *)
+RECURSIVE NameWalk(_, _, _)
+NameWalk(p, o, total) ==
+    IF o + 1 > Len(p) THEN -1
+    ELSE LET l == p[o + 1] IN
+         IF l = 0 THEN (IF total + 1 <= 255 THEN o + 1 ELSE -2)
+         ELSE IF l > 63 THEN -2
+         ELSE NameWalk(p, o + 1 + l, total + 1 + l)
+
 QStep(p, w) ==
     IF w.st # "ok" THEN w
     ELSE LET o == w.end
-             z == NulEnd(p, o)
-         IN IF z = -1 \/ z + 4 > Len(p) THEN [ w EXCEPT !.st = "trunc" ]
-            ELSE LET e == NameEnd(p, o, 0) IN
-                 IF e = -1 \/ e # z THEN [ w EXCEPT !.st = "odd" ]
-                 ELSE [ st |-> "ok", q |-> Append(w.q, << o, e, DU16(p, e), DU16(p, e + 2) >>), end |-> e + 4 ]
+             e == NameWalk(p, o, 0)
+         IN IF e = -1 \/ (e >= 0 /\ e + 4 > Len(p)) THEN [ w EXCEPT !.st = "trunc" ]     \* the message ends inside this question
+            ELSE IF e = -2 \/ e # NulEnd(p, o) THEN [ w EXCEPT !.st = "odd" ]            \* pointer, odd label, NUL inside a label
+            ELSE [ st |-> "ok", q |-> Append(w.q, << o, e, DU16(p, e), DU16(p, e + 2) >>), end |-> e + 4 ]
 
 Questions(p, o, n, acc) ==
     FoldLeft(LAMBDA w, i : QStep(p, w), [ st |-> "ok", q |-> acc, end |-> o ], [ i \in 1..n |-> i ])
@@ -102,8 +111,27 @@ AnswerStep(p, r, dst, o, qi) ==
                     /\ SubSeq(r, ne + 11, ne + 14) = dst
                  THEN ne + 14 ELSE -1
 
+(* a resource record of any type at offset o: offset after it, or -1 *)
+RECURSIVE RrNameEnd(_, _, _)
+RrNameEnd(r, o, n) ==
+    IF n > 130 \/ o + 1 > Len(r) THEN -1
+    ELSE IF r[o + 1] = 0 THEN o + 1
+    ELSE IF r[o + 1] \div 64 = 3 THEN (IF o + 2 <= Len(r) THEN o + 2 ELSE -1)
+    ELSE IF r[o + 1] > 63 THEN -1
+    ELSE RrNameEnd(r, o + 1 + r[o + 1], n + 1)
+RrStep(r, o) ==
+    IF o = -1 THEN -1
+    ELSE LET ne == RrNameEnd(r, o, 0) IN
+         IF ne = -1 \/ ne + 10 > Len(r) \/ ne + 10 + DU16(r, ne + 8) > Len(r) THEN -1
+         ELSE ne + 10 + DU16(r, ne + 8)
+
+(* the answers, then as many further records as the authority and additional counts announce, *)
+(* and nothing else: "all section counts match the records present"                           *)
 AnswersOK(p, r, q, i, o, dst) ==
-    FoldLeft(LAMBDA oo, qi : AnswerStep(p, r, dst, oo, qi), o, SubSeq(q, i, Len(q))) = Len(r)
+    LET a == FoldLeft(LAMBDA oo, qi : AnswerStep(p, r, dst, oo, qi), o, SubSeq(q, i, Len(q)))
+        extra == DnsNs(r) + DnsAr(r)
+    IN IF extra = 0 THEN a = Len(r)
+       ELSE extra <= 64 /\ FoldLeft(LAMBDA oo, k : RrStep(r, oo), a, [ k \in 1..extra |-> k ]) = Len(r)
 
 DnsAnswerFails(p, r, dst) ==
     IF Len(r) < 12 THEN { "dns-header" }
@@ -114,7 +142,7 @@ DnsAnswerFails(p, r, dst) ==
     (IF DnsId(r) = DnsId(p) THEN {} ELSE { "dns-id" })
     \cup (IF DnsQR(r) = 1 THEN {} ELSE { "dns-qr" })
     \cup (IF DnsOpcode(r) = DnsOpcode(p) /\ DnsRD(r) = DnsRD(p) THEN {} ELSE { "dns-opcode-rd" })
-    \cup (IF DnsQd(r) = DnsQd(p) /\ DnsAn(r) = DnsQd(p) /\ DnsNs(r) = 0 /\ DnsAr(r) = 0 THEN {} ELSE { "dns-section-counts" })
+    \cup (IF DnsQd(r) = DnsQd(p) /\ DnsAn(r) = DnsQd(p) THEN {} ELSE { "dns-section-counts" })
     \cup (IF Len(r) >= qend /\ SubSeq(r, 13, qend) = SubSeq(p, 13, qend) THEN {} ELSE { "dns-question-echo" })
     \cup (IF Len(r) >= qend /\ AnswersOK(p, r, q, 1, qend, dst) THEN {} ELSE { "dns-answers" })
 =============================================================================
